@@ -279,6 +279,7 @@ class Client(BaseComponent):
                 self._buffer.appendleft(data)
             else:
                 self.fire(error(e))
+                self._close()
 
     @handler('write')
     def write(self, data):
